@@ -131,12 +131,10 @@ func ruleOwnCloseForwards(c *Ctx, r *R) {
 			}
 			return 0, false
 		}
-		pf.Edge = func(f *ssa.Function, b *ssa.BasicBlock, idx int, q int) (StateSet, bool) {
-			iff, ok := b.Instrs[len(b.Instrs)-1].(*ssa.If)
-			if !ok {
-				return 0, false
-			}
-			cf, ok := guard{cond: iff.Cond, val: idx == 0}.asCmp()
+		pf.Edge = func(f *ssa.Function, g guard, q int) (StateSet, bool) {
+		b := g.blk
+		_ = b
+			cf, ok := g.asCmp()
 			if !ok || cf.op != token.EQL {
 				return 0, false
 			}
@@ -256,12 +254,10 @@ func ruleOwnFieldDiscipline(c *Ctx, r *R) {
 				}
 				return 0, false
 			}
-			pf.Edge = func(f *ssa.Function, b *ssa.BasicBlock, idx int, q int) (StateSet, bool) {
-				iff, ok := b.Instrs[len(b.Instrs)-1].(*ssa.If)
-				if !ok {
-					return 0, false
-				}
-				cf, ok := guard{cond: iff.Cond, val: idx == 0}.asCmp()
+			pf.Edge = func(f *ssa.Function, g guard, q int) (StateSet, bool) {
+		b := g.blk
+		_ = b
+				cf, ok := g.asCmp()
 				if !ok {
 					return 0, false
 				}
